@@ -1014,6 +1014,10 @@ func (cc *codecCtx) evalCodec(c CodecCase) {
 
 func sigOf(v string) string {
 	switch {
+	case strings.Contains(v, "level 0 on the replica"):
+		return "replica-l0-gap"
+	case strings.Contains(v, "fails although every transaction was replicated"):
+		return "txid-not-restorable"
 	case strings.Contains(v, "starts at"):
 		return "new-file-start"
 	case strings.Contains(v, "ends at"):
